@@ -245,3 +245,11 @@ func jq(s string) string {
 	}
 	return string(b)
 }
+
+func mustJSON(v interface{}) string {
+	b, err := json.Marshal(v)
+	if err != nil {
+		return "null"
+	}
+	return string(b)
+}
